@@ -109,7 +109,11 @@ def apply_jsonpath(input, path="$", throw_exception_on_failed_match=True):
     is matched. The code below attempts to handle that array slice edge case.
     """
     if len(result) == 1:
-        path_has_slice = re.search(r"\[.*:.*\]", path)
+        # [start:end] or [start:end:step] - not a colon in a quoted member
+        # name such as ['arn:aws:...']
+        path_has_slice = re.search(
+            r"\[\s*-?\d*\s*:\s*-?\d*\s*(:\s*-?\d*\s*)?\]", path
+        )
         if not path_has_slice:
             return result[0]
 
